@@ -63,7 +63,8 @@ def run(tier):
     chk.rule = ("one execution = one API history; families: random histories, histories with present-but-empty "
                 "BlockStatistics / CollectionParameters / record sections / records, all rotation and destruction paths; "
                 "each closed output is parsed strictly (Cbor.tla) and validated against the RFC 8618 schema incl. index "
-                "closure (CdnsFormat!FileErrs) by TLC; outputs without a block must be empty")
+                "closure (CdnsFormat!FileErrs) by TLC; outputs without a block must be empty; uncompressed descriptor outputs with "
+                "every write system call cut short (or failing): closed without an exception => a complete document")
     chk.assumptions = ["TLC + CommunityModules", "Cbor.tla / CdnsFormat.tla as the reading of RFC 8949 / RFC 8618",
                        "driver logging (harness/exp_driver.cpp)", "python3 zlib/lzma"]
     exporter_models(chk, tier, selftests=("stale_header",))
@@ -75,7 +76,12 @@ def run(tier):
     hs += [histgen.add_external_block_ops(rng, histgen.gen_history(rng, nops=20, comp="none", sizes=[1, 3, 10000]), p=0.6)
            for _ in range(n // 3)]
     m = run_histories(chk, hs, {"C02"}, label="c02")
-    chk.distinct = m["execs"]
+    # partial (short) writes of the operating system on descriptor outputs: no failure of the output, the rest can be
+    # offered again - an output closed normally after one, with no exception reported, must still be a complete document
+    from checks.writer_common import run_scenarios, exporter_scenarios
+    scs = exporter_scenarios(rng, tier, comps=("none",), kinds=("fd",), recover=True)
+    m2 = run_scenarios(chk, "c16", scs, {"C02"}, "c02f")
+    chk.distinct = m["execs"] + m2["execs"]
     return chk.finish()
 
 
